@@ -232,29 +232,28 @@ def run(ctx):
             for nb in ncalls:
                 nt = b.term(nb)
                 if any(sb.crate == b.crate for sb in local_callee_bodies(F, CallSite(b, nb, nt))) and nt["args"]:
-                    ro = pr.operand(nt["args"][0])
-                    okn = okn or any(x[0] == "arg" and x[1] == rate_l for x in ro)
+                    okn = okn or any(any(x[0] == "arg" and x[1] == rate_l and not x[2] for x in pr.operand(a_)) for a_ in nt["args"])
             ctx.check(some and okn, "R12.2", key + "#multiplicity-from-rate", loc(b, c.bb),
                       "the multiplicity passed to the formatter is not Some(n) with n computed from the `rate` parameter (origins %s)" % sorted(map(str, o))[:4])
             # guards: rate <= 0.0 and is_nan reject before the call
-            guards = {"nonpositive": False, "nan": False}
-            for i, t, yes, no in controlling_switches(b, c.bb):
-                rv = discr_def(b, i, t)
-                tg = {v: tb for v, tb in t["targets"]}
-                site_on_true = t["otherwise"] in yes
-                if rv and rv.get("k") == "binop" and rv["op"] in CMP:
-                    ao, bo = pr.operand(rv["a"]), pr.operand(rv["b"])
-                    zero_b = any(x == ("const", ("float", "0.0")) for x in bo)
-                    zero_a = any(x == ("const", ("float", "0.0")) for x in ao)
-                    ra = any(x[0] == "arg" and x[1] == rate_l for x in ao)
-                    rb = any(x[0] == "arg" and x[1] == rate_l for x in bo)
-                    if (ra and zero_b and rv["op"] == "Le" and not site_on_true) or (rb and zero_a and rv["op"] == "Ge" and not site_on_true) or \
-                       (ra and zero_b and rv["op"] == "Gt" and site_on_true) or (rb and zero_a and rv["op"] == "Lt" and site_on_true):
-                        guards["nonpositive"] = all(_returns_err(b, x, res_locals) for x in no)
-                if rv and rv.get("k") == "call" and (rv["term"].get("callee") or {}).get("name") == "is_nan":
-                    ro = pr.operand(rv["term"]["args"][0])
-                    if any(x[0] == "arg" and x[1] == rate_l for x in ro) and not site_on_true:
-                        guards["nan"] = all(_returns_err(b, x, res_locals) for x in no)
+            guards = rate_guards(b, pr, c.bb, rate_l, res_locals)
+            if not (guards["nonpositive"] and guards["nan"]):
+                # ... or inside the private helper that turns the rate into the weight and is fallible for that reason
+                # (`let n = self.weight_for_rate(rate)?`): there the guards decide between `Ok(n)` and `Err(..)`
+                for nb in ncalls:
+                    nt = b.term(nb)
+                    for hb in local_callee_bodies(F, CallSite(b, nb, nt)):
+                        if hb.crate != b.crate or "Result<u64" not in (hb.d.get("output") or "").replace("core::result::", ""):
+                            continue
+                        rp = [ai + 1 for ai, a in enumerate(nt["args"]) if any(x[0] == "arg" and x[1] == rate_l and not x[2] for x in pr.operand(a))]
+                        if not rp or len(nt["args"]) != hb.arg_count:
+                            continue
+                        hpr = Prov(hb)
+                        oks = [i_ for i_ in hb.live_blocks() for st_ in hb.stmts(i_) if st_["k"] == "assign" and st_["lhs"]["l"] == 0 and not st_["lhs"].get("p")
+                               and st_["rv"]["k"] == "agg" and st_["rv"].get("variant") == "Ok"]
+                        gs = [rate_guards(hb, hpr, i_, rp[0], None) for i_ in oks]
+                        if gs and all(g_["nonpositive"] and g_["nan"] for g_ in gs):
+                            guards = {"nonpositive": True, "nan": True}
             ctx.check(guards["nonpositive"], "R12.2", key + "#rejects-non-positive-rate", loc(b, c.bb), "a rate <= 0 is not rejected with an error before formatting")
             ctx.check(guards["nan"], "R12.2", key + "#rejects-nan-rate", loc(b, c.bb), "a NaN rate is not rejected with an error before formatting")
     # ------------------------------------------------------------------ R12.5 the weight is computed from the rate at f64 precision
@@ -341,7 +340,7 @@ def run(ctx):
         for c, w_op in direct5 or [(x[0], x[1]) for x in weight_carried(F, b, weight_types(F))]:
             stats = {"calls": 0, "ops": 0, "casts": 0}
             visited = set()
-            bad = slice_check(b, [op_local(w_op)], 3, visited, stats)
+            bad = slice_check(b, [op_local(w_op)], 5, visited, stats)
             n5 += stats["ops"] + stats["casts"]
             ctx.check(not bad, "R12.5", fnkey(b) + "#weight-computed-in-f64", loc(b, c.bb),
                       "the weight handed to the formatter depends on a precision-losing step: %s. A 32-bit reciprocal has 24 significant bits, so for "
@@ -671,6 +670,29 @@ def run(ctx):
                               "the per-group update closure can return without storing a rate: that group keeps a rate computed for an older traffic mix")
     ctx.floor("R12.4", "rate-update loops", nl, 1)
     return EXPL
+
+
+def rate_guards(b, pr, site_bb, rate_l, res_locals):
+    """which of the two rejections (`rate <= 0`, `rate.is_nan()`) control reaching block site_bb of b, each with an error on the other side"""
+    guards = {"nonpositive": False, "nan": False}
+    for i, t, yes, no in controlling_switches(b, site_bb):
+        rv = discr_def(b, i, t)
+        tg = {v: tb for v, tb in t["targets"]}
+        site_on_true = t["otherwise"] in yes
+        if rv and rv.get("k") == "binop" and rv["op"] in CMP:
+            ao, bo = pr.operand(rv["a"]), pr.operand(rv["b"])
+            zero_b = any(x == ("const", ("float", "0.0")) for x in bo)
+            zero_a = any(x == ("const", ("float", "0.0")) for x in ao)
+            ra = any(x[0] == "arg" and x[1] == rate_l for x in ao)
+            rb = any(x[0] == "arg" and x[1] == rate_l for x in bo)
+            if (ra and zero_b and rv["op"] == "Le" and not site_on_true) or (rb and zero_a and rv["op"] == "Ge" and not site_on_true) or \
+               (ra and zero_b and rv["op"] == "Gt" and site_on_true) or (rb and zero_a and rv["op"] == "Lt" and site_on_true):
+                guards["nonpositive"] = all(_returns_err(b, x, res_locals) for x in no)
+        if rv and rv.get("k") == "call" and (rv["term"].get("callee") or {}).get("name") == "is_nan":
+            ro = pr.operand(rv["term"]["args"][0])
+            if any(x[0] == "arg" and x[1] == rate_l for x in ro) and not site_on_true:
+                guards["nan"] = all(_returns_err(b, x, res_locals) for x in no)
+    return guards
 
 
 class _Site:
